@@ -129,7 +129,7 @@ var progress uint64
 // (the L0 checks): there a test goroutine that sits in a mutex of orda's client code can never be released
 // by anybody - that is a self-deadlock of the library, not a slow machine.
 func singleThreaded(test string) bool {
-	for _, p := range []string{"TestC01", "TestC02", "TestC03", "TestC04", "TestC10", "TestC09Counter", "TestC09Map", "TestC09List", "TestC09Document", "TestC15Counter", "TestC15Map", "TestC15List", "TestC15Document", "TestC19Local", "TestC19Invalid"} {
+	for _, p := range []string{"TestC01", "TestC02", "TestC03", "TestC04", "TestC10", "TestC09Counter", "TestC09Map", "TestC09List", "TestC09Document", "TestC15Counter", "TestC15Map", "TestC15List", "TestC15Document", "TestC19Local", "TestC19Invalid", "TestC03DocumentPatch"} {
 		if strings.HasPrefix(test, p) {
 			return true
 		}
